@@ -151,7 +151,9 @@ func (srv *Server) run() {
 			// is already exist
 			if _, ok := srv.connectedNodes[*p.RNodeID()]; ok {
 				log.Debugf("Add peer event. But connection has already exist. nodeID: %s", p.RNodeID().String()[:16])
-				p.Close()
+				// not on this goroutine: Close publishes SrvDeletePeer and waits until delPeerCh takes it,
+				// and this loop is the only reader of delPeerCh
+				go p.Close()
 				if err := srv.discover.SetConnectResult(p.RNodeID(), true); err != nil {
 					log.Infof("SetConnectResult failed: %v", err)
 				}
